@@ -165,3 +165,14 @@ Example demo_fields :
   | _, _ => (None, None)
   end = (Some (VInt 6), Some (VStr 1)).
 Proof. vm_compute. reflexivity. Qed.
+
+(* derefSet through a pointer made BEFORE a redeclaration is rejected (the pointed-to type is the old object),
+   and index-style writes (key wrapped in a one-element array) are checked like plain symbol keys *)
+Example old_pointer_rejected :
+  let h := [Declare 0 [(0, int64_t)]; Construct 0 0 [(KSym 0, VInt 1)]; TakePtr 0 0;
+            Declare 0 [(1, string_t)]; Construct 1 0 [(KSym 1, VStr 1)]] in
+  fst (step (run init_state h) (DerefSetP 0 (VInst 1))) = ERR /\
+  fst (step (run init_state h) (Write RIdx 0 (KSym 0) (VStr 2))) = ERR /\
+  fst (step (run init_state h) (Write RIdx 0 (KSym 3) (VInt 2))) = ERR /\
+  fst (step (run init_state h) (Write RIdx 0 (KSym 0) (VInt 2))) = OK.
+Proof. vm_compute. repeat split; reflexivity. Qed.
